@@ -33,7 +33,7 @@ ENTRIES = ["x.compute", "dask.compute", "dask.compute-arrays", "dask.compute-mix
 def _seven():
     return 7
 FOLLOW = ["none", "none", "plus1", "slice", "sum", "rechunk", "T"]
-EXCLUDE = ("KF-layout-drift-over-shuffle", "KF-minmax-empty", "KF-pad-wide", "KF-tensordot-int-dtype", "KF-argext-ties-axis-none")
+EXCLUDE = exclusions.ALL
 
 REDUCTION_OPS = set(P.REDUCTIONS) | {"cumsum", "cumprod"}
 
